@@ -393,7 +393,9 @@ func runPES(line []byte, rec *recorder) {
 					want.StreamID = types[pid].ToPESStreamID()
 				}
 				var err error
-				if pn := safeCall(func() { _, err = m.WriteData(&astits.MuxerData{PID: uint16(pid), PES: &astits.PESData{Header: h, Data: data}}) }); pn != nil || err != nil {
+				if pn := safeCall(func() {
+					_, err = m.WriteData(&astits.MuxerData{PID: uint16(pid), PES: &astits.PESData{Header: h, Data: data}})
+				}); pn != nil || err != nil {
 					okAll = false
 					break
 				}
